@@ -652,6 +652,7 @@ func (sdb *DbSqlite) edgePoints(nodeID, parentID string, points data.Points) err
 	var edge data.Edge
 
 	newEdge := false
+	newRootID := ""
 
 	if len(edges) <= 0 {
 		newEdge = true
@@ -865,7 +866,8 @@ NextPin:
 				rollback()
 				return fmt.Errorf("Error update root id in meta: %w", err)
 			}
-			sdb.setRootNodeID(nodeID)
+			// readers learn of the new root once its edge is committed (below)
+			newRootID = nodeID
 			verifSite("ep.rootSet")
 		}
 	}
@@ -894,6 +896,9 @@ NextPin:
 	err = tx.Commit()
 	if err != nil {
 		return err
+	}
+	if newRootID != "" {
+		sdb.setRootNodeID(newRootID)
 	}
 	verifSite("ep.committed")
 
